@@ -174,7 +174,79 @@ def eval_case(lang, spec, names, vid):
     return len(got), out
 
 
+# ---------------------------------------------------------------------------------------
+# metamorphic layer on real-world and non-canonical code: no ground truth needed
+# ---------------------------------------------------------------------------------------
+
+def eval_real(lang, src, name, thorough):
+    """baseline = what the tool reports for the file; for every reported function that neither encloses nor is nested in
+    another reported one: put a trailing marker on its name's line -> exactly that function disappears, nothing else changes"""
+    from pygments.token import Name
+
+    from mc.checks import c04
+
+    text = c04.load_file({"src": src, "lang": lang, "name": name})
+    if not text.endswith("\n"):
+        text += "\n"
+    try:
+        base = oracle.measured(lang, text)
+    except Exception:
+        return 0, []
+    stream0 = c04.code_stream(lang, text)
+    lines, line_safe, trail_safe = c04.safe_boundaries(lang, text)
+    starts = oracle.line_starts(text)
+    toks = oracle.raw_code_tokens(lang, text)
+    out = []
+    n = 0
+    markers = (["# nocl"] if lang == "Python" else ["// nocl", "/* NOCL */"]) if thorough else (["# nocl"] if lang == "Python" else ["// nocl"])
+    for i, f in enumerate(base):
+        s_off, e_off = oracle.pos_to_off(starts, f[1]), oracle.pos_to_off(starts, f[2])
+        others = [g for j, g in enumerate(base) if j != i]
+        if any(oracle.pos_to_off(starts, g[1]) <= s_off < oracle.pos_to_off(starts, g[2]) or s_off <= oracle.pos_to_off(starts, g[1]) < e_off for g in others):
+            continue  # encloses or is nested
+        name_tok = next((off for off, ty, val in toks if s_off <= off < e_off and ty in Name and val == f[0]), None)
+        if name_tok is None:
+            continue
+        ln = oracle.off_to_line(starts, name_tok)
+        if ln not in trail_safe:
+            continue
+        if any(oracle.off_to_line(starts, oracle.pos_to_off(starts, g[1])) == ln or g[2][0] == ln for g in others):
+            continue  # another function's header shares the line (its name line would be marked too)
+        for mk in markers:
+            new_lines = list(lines)
+            new_lines[ln - 1] = new_lines[ln - 1] + "  " + mk
+            text2 = "\n".join(new_lines) + "\n"
+            if c04.code_stream(lang, text2) != stream0:
+                continue
+            n += 1
+            try:
+                got = oracle.measured(lang, text2)
+            except Exception as e:  # noqa
+                out.append(("analysis-raises", {"language": lang, "error": type(e).__name__}, {"function": f[0], "line": ln, "marker": mk}, repr(e)))
+                continue
+            want = [g for j, g in enumerate(base) if j != i]
+            if got != want:
+                gn, wn = [g[0] for g in got], [g[0] for g in want]
+                kind = "marked-function-still-reported" if f in got else ("other-function-removed-or-added" if gn != wn else "other-function-changed")
+                out.append((kind, {"language": language_sig(lang), "positive": True, "form": "real-code"}, {"function": f[0], "line": ln, "marker": mk},
+                            f"{name}: marking {f[0]} (line {ln}) with {mk!r}: reported {gn}, expected {wn}"))
+    return n, out
+
+
+def language_sig(lang):
+    return lang
+
+
 def _block(block, agg):
+    if block[0] == "real":
+        _, lang, src, name, thorough = block
+        n, viol = eval_real(lang, src, name, thorough)
+        case = {"part": "real", "lang": lang, "src": src, "name": name, "thorough": thorough}
+        agg.case(case, n > 0, f"{n} markable", sample=False)
+        agg.extra["real_code_marker_cases"] += n
+        for k, sig, extra, d in viol:
+            agg.violation(k, sig, dict(case, **extra), d)
+        return
     lang, thorough, pi = block
     spec, markable = progs(lang, thorough)[pi]
     for r in range(0, len(markable) + 1):
@@ -193,6 +265,10 @@ def _block(block, agg):
 
 
 def replay(case):
+    if case.get("part") == "real":
+        _, viol = eval_real(case["lang"], case["src"], case["name"], case.get("thorough", False))
+        return [{"kind": k, "sig": s, "detail": d} for k, s, e, d in viol if e.get("function") == case.get("function")] or \
+               [{"kind": k, "sig": s, "detail": d} for k, s, e, d in viol]
     _, viol = eval_case(case["lang"], case["spec"], case["marked"], case["variant"])
     return [{"kind": k, "sig": s, "detail": d} for k, s, d in viol]
 
@@ -204,4 +280,12 @@ def run(ctx: core.Ctx):
     ctx.rule = ("case = (program, marked subset, marker variant); every subset of the markable functions of every program x every variant. "
                 "Non-trivial: at least one function marked. Outcome = (#marked, positive?, #reported).")
     blocks = [(lang, thorough, i) for lang in canon.LANGS for i in range(len(progs(lang, thorough)))]
+    from mc.gen import malformed, wild
+
+    for lang in canon.LANGS:
+        for name, _t in wild.snippets(lang):
+            blocks.append(("real", lang, "wild", name, thorough))
+        for name in malformed.corpus_files(lang)[: (8 if thorough else 3)]:
+            blocks.append(("real", lang, "corpus", name, thorough))
+    ctx.bounds["real_code"] = "every markable function of every wild snippet and of the corpus files (3 per language quick, all thorough), one marker each (two in thorough)"
     ctx.run_blocks(_block, blocks)
